@@ -21,6 +21,8 @@ import (
 
 	"github.com/DataDog/datadog-go/v5/statsd"
 	"go.uber.org/zap"
+
+	"github.com/mimiro-io/datahub/internal/verifhook"
 )
 
 type raffle struct {
@@ -88,6 +90,7 @@ func (r *raffle) borrowTicket(job *job) *ticket {
 				ctx:     ctx,
 				cancel:  cancel,
 			}
+			verifhook.Access(r.runningJobs, "raffle.runningJobs", true)
 			r.runningJobs[job.id] = state
 			return &ticket{runState: state}
 		}
@@ -105,6 +108,7 @@ func (r *raffle) borrowTicket(job *job) *ticket {
 				ctx:     ctx,
 				cancel:  cancel,
 			}
+			verifhook.Access(r.runningJobs, "raffle.runningJobs", true)
 			r.runningJobs[job.id] = state
 			return &ticket{runState: state}
 		}
@@ -119,6 +123,7 @@ func (r *raffle) returnTicket(ticket *ticket) {
 	r.runningMu.Lock()
 	defer r.runningMu.Unlock()
 
+	verifhook.Access(r.runningJobs, "raffle.runningJobs", true)
 	delete(r.runningJobs, ticket.runState.id)
 	if ticket.runState.isFull {
 		r.ticketsFull++
@@ -130,6 +135,7 @@ func (r *raffle) returnTicket(ticket *ticket) {
 }
 
 func (r *raffle) runningJob(jobid string) *runState {
+	verifhook.Access(r.runningJobs, "raffle.runningJobs", false)
 	state, ok := r.runningJobs[jobid]
 	if ok {
 		return state
